@@ -77,8 +77,10 @@ class HashGlobalVarDesc:
         if instance.loaded:
             fd = instance.__dict__[self.name].fd
             # the kernel always writes the map's full 8-byte value
-            return unpack_from(self.fmt, lookup_elem(
-                fd, pack("B", self.count), 8))[0]
+            data = lookup_elem(fd, pack("B", self.count), 8)
+            if self.fmt == "x":
+                return unpack_from("q", data)[0] / Expression.FIXED_BASE
+            return unpack_from(self.fmt, data)[0]
         ret = instance.__dict__.get(self.name, None)
         if ret is None:
             ret = HashGlobalVar(instance, self.count, self.fmt)
@@ -91,6 +93,8 @@ class HashGlobalVarDesc:
     def __set__(self, ebpf, value):
         if ebpf.loaded:
             fd = ebpf.__dict__[self.name].fd
+            if self.fmt == "x":
+                value = round(value * Expression.FIXED_BASE)
             update_elem(fd, pack("B", self.count),
                         pack("q" if self.fmt.islower() else "Q", value))
             return
